@@ -27,12 +27,16 @@ class EmptyGroupError(TaskError):
         return 0
 
 
+class TaskAbort(BaseException):
+    """What a task that calls sys.exit() - or is interrupted - ends with: an exception that is not an Exception."""
+
+
 class CallbackError(Exception):
     pass
 
 
 def gen_program(rng):
-    task = [rng.choice(["ret", "ret", "raise", "raise", "raise-falsy", "ret-exc"]), rng.choice([0, 0, 1.0, 2.0])]
+    task = [rng.choice(["ret", "ret", "raise", "raise", "raise-falsy", "ret-exc", "raise-base"]), rng.choice([0, 0, 1.0, 2.0])]
     nthreads = rng.randint(2, 4)
     threads = []
     execer = rng.randrange(nthreads)
@@ -44,7 +48,7 @@ def gen_program(rng):
             if k < 0.45:
                 op = ["cb", rng.choice(["ret", "ret", "raise", "arity", "typeerr-noextra", "ret-noextra", "rereg", "ret-shared", "ret-shared"])]
                 if rng.random() < 0.3:
-                    op.append(rng.choice(["partial", "object", "boundmethod"]))
+                    op.append(rng.choice(["partial", "object", "boundmethod", "falsy-object"]))
                 out.append(op)
             elif k < 0.6:
                 out.append(["done"])
@@ -74,6 +78,8 @@ class FutRun(object):
         # "ret-exc": the task *returns* an exception object (a collect-errors helper); that is a result, not a failure
         self.obj = ValueError("returned, not raised") if program["task"][0] == "ret-exc" else ["task-result"]
         self.exc = EmptyGroupError("task-exception") if program["task"][0] == "raise-falsy" else TaskError("task-exception")
+        if program["task"][0] == "raise-base":
+            self.exc = TaskAbort("task-exception")
 
     def task(self, *args, **kwargs):
         s = self.s
@@ -115,6 +121,16 @@ class FutRun(object):
                     return cb(*args)
 
             return Callable()
+        if shape == "falsy-object":
+            # a callable object whose truth value is False (a collector that is still empty)
+            class Collector(object):
+                def __len__(self):
+                    return 0
+
+                def __call__(self, *args):
+                    return cb(*args)
+
+            return Collector()
         if shape == "boundmethod":
             # a method of an object nobody else refers to
             class Listener(object):
@@ -178,7 +194,7 @@ class FutRun(object):
                     try:
                         fut.execute(self.task, [1, "a"], {"k": 2})
                         out = "returned"
-                    except TaskError as ex:
+                    except (TaskError, TaskAbort) as ex:
                         out = "raised:%s" % (ex is self.exc)
                 elif name == "cb":
                     if op[1].endswith("-noextra"):
@@ -193,7 +209,7 @@ class FutRun(object):
                         out = "value:%s" % (val is self.obj)
                     except OSError:
                         out = "timeout"
-                    except TaskError as ex:
+                    except (TaskError, TaskAbort) as ex:
                         out = "raised:%s" % (ex is self.exc)
                 elif name == "sleep":
                     s.sleep(op[1])
